@@ -7,6 +7,8 @@ CONSTANTS
   CLOSESIGNAL = FALSE
   Closers = {"X"}
   RECHECK = TRUE
+  SENDER = FALSE
+  RELOCK = FALSE
   GEN = TRUE
 CONSTRAINT GenPrint
 CHECK_DEADLOCK FALSE
